@@ -10,6 +10,7 @@ import (
 	"regexp"
 	"sort"
 	"strings"
+	"sync/atomic"
 	"time"
 
 	cdx "github.com/CycloneDX/cyclonedx-go"
@@ -430,7 +431,12 @@ type parseResult struct {
 	pan string
 }
 
+var parseHung atomic.Bool
+
 func runParse(b []byte, format formats.Format) (class string, doc *sbom.Document) {
+	if parseHung.Load() {
+		return "skipped-after-hang", nil
+	}
 	ch := make(chan parseResult, 1)
 	go func() {
 		var pr parseResult
@@ -462,7 +468,8 @@ func runParse(b []byte, format formats.Format) (class string, doc *sbom.Document
 			return "doc-incomplete", nil
 		}
 		return "doc", pr.doc
-	case <-time.After(30 * time.Second):
+	case <-time.After(20 * time.Second):
+		parseHung.Store(true)
 		return "hang", nil
 	}
 }
@@ -663,7 +670,7 @@ func oracleParse(op M, res any, exec func(M) any) []Finding {
 			closure(sk, "cdx")
 		}
 	}
-	if s, ok := res.(string); ok && s != "err" && s != "unknown-op" {
+	if s, ok := res.(string); ok && s != "err" && s != "unknown-op" && s != "skipped-after-hang" {
 		in, _ := op["in"].(M)
 		out = append(out, Finding{"C04", fmt.Sprintf("parsing (%s, fault %s) ends with %s", asStr(in["src"]), asStr(in["fault"]), s)})
 	}
@@ -692,6 +699,63 @@ func parseCanon(v any) any {
 	return M{"nodes": ids, "edges": nl["edges"], "roots": nl["roots"]}
 }
 
+// parseBatch runs the operations in child processes, 400 at a time: an input that terminates the
+// process (fatal stack overflow, os.Exit) costs one child, not the check. When a child dies, its
+// operations are re-run one per child to find the one that kills it.
+func parseBatch(ops []M) []any {
+	out := make([]any, len(ops))
+	const chunk = 400
+	type job struct{ lo, hi int }
+	var jobs []job
+	for lo := 0; lo < len(ops); lo += chunk {
+		hi := lo + chunk
+		if hi > len(ops) {
+			hi = len(ops)
+		}
+		jobs = append(jobs, job{lo, hi})
+	}
+	run := func(lo, hi int) ([]any, string) {
+		req := M{"op": "batch", "stream": "parse", "ops": toAnyList(ops[lo:hi])}
+		r, exit := runChild(req)
+		l, _ := r.([]any)
+		return l, exit
+	}
+	sem := make(chan struct{}, 8)
+	done := make(chan struct{}, len(jobs))
+	for _, j := range jobs {
+		j := j
+		go func() {
+			sem <- struct{}{}
+			defer func() { <-sem; done <- struct{}{} }()
+			l, exit := run(j.lo, j.hi)
+			if exit == "" && len(l) == j.hi-j.lo {
+				copy(out[j.lo:j.hi], l)
+				return
+			}
+			for i := j.lo; i < j.hi; i++ {
+				l1, exit1 := run(i, i+1)
+				if exit1 == "" && len(l1) == 1 {
+					out[i] = l1[0]
+				} else {
+					out[i] = "process-ended: " + exit1
+				}
+			}
+		}()
+	}
+	for range jobs {
+		<-done
+	}
+	return out
+}
+
+func toAnyList(ops []M) []any {
+	l := make([]any, len(ops))
+	for i, o := range ops {
+		l[i] = o
+	}
+	return l
+}
+
 var ParseStream = &Stream{
 	Name:       "parse",
 	Gen:        parseGen,
@@ -705,8 +769,9 @@ var ParseStream = &Stream{
 		}
 		return []string{"C04", "C05"}
 	},
-	Reps:       1,
-	Enrich:     parseEnrich,
+	Reps:      1,
+	ExecBatch: parseBatch,
+	Enrich:    parseEnrich,
 	NoModel: func(op M) bool {
 		// the model reproduces the exponential licence string too: keep such inputs from it
 		if asStr(op["op"]) == "newId" {
@@ -719,6 +784,5 @@ var ParseStream = &Stream{
 		b, err := base64.StdEncoding.DecodeString(asStr(in["b64"]))
 		return err != nil || maxLicences(b) >= 16
 	},
-	NoShrink:   true,
+	NoShrink: true,
 }
-
